@@ -12,6 +12,7 @@ mod exec;
 mod fam_a;
 mod fam_b;
 mod fam_c;
+mod fam_d;
 mod interpose;
 mod model;
 mod pool;
@@ -76,6 +77,7 @@ pub fn checks() -> Vec<CheckDef> {
     v.extend(fam_a::checks());
     v.extend(fam_c::checks());
     v.extend(fam_b::checks());
+    v.extend(fam_d::checks());
     v
 }
 
